@@ -51,6 +51,9 @@ fn body_alphabet() -> Vec<S> {
         S::Ret(Some(call("g", vec![]))),
         make("w", call("r", vec![])),
         S::Ret(Some(idx(var("a"), x()))),
+        // the captured read sits three call edges down
+        S::Ret(Some(call("r3", vec![]))),
+        make("w", call("r3", vec![])),
     ]
 }
 
@@ -88,6 +91,24 @@ fn main_alphabet() -> Vec<S> {
         S::SetIdx(idx(var("a"), num("0")), x()),
         make("b2", var("a")),
         S::Expr(meth(var("a"), "push", vec![x()])),
+        // an assignment whose callee reads the assigned variable before the write, across a
+        // basic-block boundary that does not itself read it
+        set("x", call("r", vec![])),
+        S::If(E::Bool(true), vec![], None),
+        set("x", bin(Op::Add, call("r", vec![]), num("1"))),
+        // a variable of a nested scope, re-assigned in an inner branch, read in the last
+        // basic block of its scope
+        S::Block(vec![make("t2", num("0")), S::If(bin(Op::Lt, x(), num("9")), vec![set("t2", num("5"))], None), shout(var("t2"))]),
+        S::Loop(bin(Op::Lt, x(), num("2")), vec![set("x", bin(Op::Add, x(), num("1"))), make("q2", num("0")), S::If(bin(Op::Eq, x(), num("1")), vec![set("q2", num("7"))], None), shout(var("q2"))]),
+        S::If(E::Bool(true), vec![make("t3", st("a")), S::Loop(bin(Op::Lt, x(), num("1")), vec![set("x", bin(Op::Add, x(), num("1"))), set("t3", st("b"))]), shout(var("t3"))], None),
+        shout(call("r3", vec![])),
+        // a callee that only MAY write the captured variable
+        S::Expr(call("mw", vec![])),
+        // a variable re-assigned to another type, then used by a pure-looking unused initialiser
+        set("x", st("str")),
+        make("y", bin(Op::Sub, x(), num("1"))),
+        // a hoisted function that reads a variable whose declaration has not run yet
+        make("y", call("lr", vec![])),
     ]
 }
 
@@ -101,11 +122,17 @@ fn programs(body_len: u32, main_len: u32) -> Gen<Vec<S>> {
             make("a", E::Arr(vec![num("10"), num("20")])),
             func("g", &[], vec![set("x", bin(Op::Add, var("x"), num("10"))), S::Ret(Some(var("x")))]),
             func("r", &[], vec![S::Ret(Some(var("x")))]),
+            func("r2", &[], vec![S::Ret(Some(call("r", vec![])))]),
+            func("r3", &[], vec![S::Ret(Some(call("r2", vec![])))]),
+            func("mw", &[], vec![S::If(bin(Op::Gt, var("x"), num("100")), vec![set("x", num("0"))], None)]),
             func("f", &["p"], body),
         ];
         p.extend(main);
         p.push(shout(var("x")));
         p.push(shout(var("a")));
+        p.push(make("late", num("1")));
+        p.push(func("lr", &[], vec![S::Ret(Some(var("late")))]));
+        p.push(shout(call("lr", vec![])));
         p
     })
 }
